@@ -26,6 +26,9 @@ pub enum Mut {
     /// rewrite every record of the nth prototype to a zero-width integer (same names, same count);
     /// keep_first: leave the first record as it is
     XmlProtoZero { nth: usize, keep_first: bool },
+    /// set minimum AND maximum of the nth element that has a minimum attribute (a consistent pair:
+    /// a narrow range at an extreme of the integer domain passes "maximum >= minimum" checks)
+    XmlRange { nth: usize, min: String, max: String },
     /// compressed vector section header of point cloud `cv`: 0 id, 1 reserved, 2 section_length, 3 data_offset, 4 index_offset
     CvHeader { cv: usize, field: u8, value: u64 },
     /// packet `packet` of point cloud `cv`: 0 type, 1 flags, 2 length field, 3 stream count / entry count, 4 stream length table entry `sub`
@@ -167,6 +170,29 @@ fn edit_xml(xml: &str, m: &Mut) -> Option<String> {
             let i = nth_match(xml, &pat, *nth)? + pat.len();
             let e = i + xml[i..].find('"')?;
             Some(format!("{}{}{}", &xml[..i], value, &xml[e..]))
+        }
+        Mut::XmlRange { nth, min, max } => {
+            let pat = " minimum=\"";
+            let at = nth_match(xml, pat, *nth)?;
+            let tag_start = xml[..at].rfind('<')?;
+            let tag_end = at + xml[at..].find('>')?;
+            let tag = &xml[tag_start..tag_end];
+            let set = |tag: &str, name: &str, value: &str| -> String {
+                let pat = format!(" {name}=\"");
+                match tag.find(&pat) {
+                    Some(i) => {
+                        let v = i + pat.len();
+                        let e = v + tag[v..].find('"').unwrap_or(0);
+                        format!("{}{}{}", &tag[..v], value, &tag[e..])
+                    }
+                    None => {
+                        let cut = if tag.ends_with('/') { tag.len() - 1 } else { tag.len() };
+                        format!("{} {name}=\"{value}\"{}", &tag[..cut], &tag[cut..])
+                    }
+                }
+            };
+            let t = set(&set(tag, "minimum", min), "maximum", max);
+            Some(format!("{}{}{}", &xml[..tag_start], t, &xml[tag_end..]))
         }
         Mut::XmlDropAttr { name, nth } => {
             let pat = format!(" {name}=\"");
@@ -635,6 +661,17 @@ pub fn draw_plan(r: &mut Rng, pristine: &[u8], map: &Decoded, size_targeted: boo
                     _ => r.below(file_len * 2 + 2).to_string(),
                 },
             },
+            4 if r.chance(1, 2) => {
+                // both limits of one record: narrow ranges at the ends of the integer domain
+                let width = *r.pick(&[1i128, 2, 127, 128, 200, 255, 256, 65535, 65536, (1 << 31) - 1, 1 << 32]);
+                let (lo, hi): (i128, i128) = match r.below(4) {
+                    0 => (i64::MAX as i128 - width, i64::MAX as i128),
+                    1 => (i64::MIN as i128, i64::MIN as i128 + width),
+                    2 => (-1, i64::MAX as i128),
+                    _ => (i64::MIN as i128, 0),
+                };
+                Mut::XmlRange { nth: r.usize_below(64), min: lo.to_string(), max: hi.to_string() }
+            }
             4 => Mut::XmlAttr {
                 name: r.pick(&["minimum", "maximum", "scale", "offset"]).to_string(),
                 nth: r.usize_below(64),
